@@ -535,3 +535,51 @@ Proof.
     rewrite ?expected_plain, ?expected_null_not_ts by discriminate; cbn [c04_expect_of c04e_ref]; congruence.
 Qed.
 End GO.
+
+(* ======================================================================================== Go, any acronyms *)
+(* the two marker parts write_field decides itself do not depend on the acronym rewrite: for EVERY
+   configuration `,omitempty` is written iff Option or default, write_field's own `*` iff default on a
+   non-Option type, and the type handed to the rewrite is `*`-headed iff Option *)
+Theorem go_field_markers uc cfg f g s m s' :
+  go_no_pointer_slice cfg = false -> type_override f Go = None ->
+  (is_optional (fty f) = true -> tmap_get (go_type_mappings cfg) (rtype_display (fty f)) = None) ->
+  go_member_of uc cfg g f s = Ok (m, s') ->
+  gm_omitempty m = (is_optional (fty f) || has_default f) /\
+  gm_star m = (has_default f && negb (is_optional (fty f))) /\
+  exists x s1 s2 y s3 s4, go_texp cfg g (fty f) s = Ok (x, s1) /\ go_acronyms_ty uc cfg x s1 = Ok (gm_type m, s2) /\
+    go_texp cfg g (c04_strip (fty f)) s3 = Ok (y, s4) /\ c04_strip_gptr x = y /\ c04_is_gptr x = is_optional (fty f).
+Proof.
+  intros Hnps Hov Hm H. unfold go_member_of in H. rewrite Hov in H.
+  apply mbind_ok in H as (x & s1 & Hx & H). apply mbind_ok in H as (gt & s2 & Hgt & H).
+  apply mbind_ok in H as (fname & s3 & _ & H). unfold ret in H. injection H as <- _.
+  cbn [gm_omitempty gm_star gm_type]. repeat split.
+  destruct (go_texp_strip cfg Hnps _ _ _ _ _ Hm Hx) as (y & s4 & s5 & Hy & Hs & Hh).
+  exists x, s1, s2, y, s4, s5. repeat split; assumption.
+Qed.
+
+(* ======================================================================================== source to expectation *)
+(* the expectation the back-end theorems are stated against is the one the SOURCE gives (and the one
+   checks/c04.py computes with Spec.C04Spec.c04_file_cells): Option depth of the declared type, bare default *)
+Theorem expectation_from_source uc tstr check_flatten rename_all f rf pos ref :
+  Attrs.get_field_type_override uc (Syntax.f_attrs f) = None ->
+  parse_field uc tstr check_flatten rename_all f = Ok rf ->
+  c04_expect_of pos (fty rf) (has_default rf) ref =
+  {| c04e_pos := pos; c04e_depth := c04_opt_depth (Syntax.f_ty f); c04e_default := Serde.bare_default (Syntax.f_attrs f); c04e_ref := ref |}.
+Proof.
+  intros Hov H. destruct (front_field uc tstr _ _ _ _ Hov H) as [Hd Hb]. unfold c04_expect_of. now rewrite Hd, Hb.
+Qed.
+
+(* ======================================================================================== the Decl observation *)
+(* Model/Lang/Decl.v's mb_optional (what the other back-end properties observe) is the reader's marker:
+   the whole idiom for Python, the initialiser / tag part for Kotlin, Scala, Go, the `?` for TS and Swift *)
+Theorem decl_optional_agrees :
+  (forall d p m, mb_optional (ts_obs_member m) = c04s_type_mark (c04r_seen (ts_c04_member d p m))) /\
+  (forall d p m, mb_optional (kt_obs_member m) = c04s_init_mark (c04r_seen (kt_c04_member d p m))) /\
+  (forall d m, mb_optional (sw_obs_member m) = c04s_type_mark (c04r_seen (sw_c04_member d m))) /\
+  (forall d m, mb_optional (sc_obs_member m) = c04s_init_mark (c04r_seen (sc_c04_member d m))) /\
+  (forall d m, mb_optional (go_obs_member m) = c04s_init_mark (c04r_seen (go_c04_member d m))) /\
+  (forall d m, mb_optional (py_obs_member m) = c04s_type_mark (c04r_seen (py_c04_member d m)) && c04s_init_mark (c04r_seen (py_c04_member d m))).
+Proof.
+  repeat split; intros; try reflexivity.
+  destruct m as [? ? ? ? t ? b]. destruct t, b; reflexivity.
+Qed.
